@@ -506,10 +506,33 @@ func (p *Plugin) appendIndexName(outBuf []byte, event *pipeline.Event) []byte {
 			if value == "" {
 				value = "not_set"
 			}
-			outBuf = append(outBuf, value...)
+			outBuf = appendJSONEscaped(outBuf, value)
 		}
 	}
 	outBuf = append(outBuf, "\"}}"...)
+	return outBuf
+}
+
+// appendJSONEscaped appends s so that it stays inside a JSON string literal:
+// the index name is taken from the event and must not break the bulk framing.
+func appendJSONEscaped(outBuf []byte, s string) []byte {
+	const hex = "0123456789abcdef"
+	for i := 0; i < len(s); i++ {
+		switch c := s[i]; {
+		case c == '"' || c == '\\':
+			outBuf = append(outBuf, '\\', c)
+		case c == '\n':
+			outBuf = append(outBuf, '\\', 'n')
+		case c == '\r':
+			outBuf = append(outBuf, '\\', 'r')
+		case c == '\t':
+			outBuf = append(outBuf, '\\', 't')
+		case c < 0x20:
+			outBuf = append(outBuf, '\\', 'u', '0', '0', hex[c>>4], hex[c&0xf])
+		default:
+			outBuf = append(outBuf, c)
+		}
+	}
 	return outBuf
 }
 
